@@ -260,6 +260,50 @@ fn driver(i: &GIface, k: usize) -> String {
     s
 }
 
+fn shape_interfaces() -> Vec<GIface> {
+    let leaves = [GTy::Str, GTy::Int, GTy::Bool, GTy::Object, GTy::Custom("Rec".into()), GTy::Custom("Kind".into())];
+    let mut shapes: Vec<GTy> = leaves.to_vec();
+    let wrap = |c: usize, t: GTy| match c {
+        0 => GTy::Optional(Box::new(t)),
+        1 => GTy::Array(Box::new(t)),
+        _ => GTy::Map(Box::new(t)),
+    };
+    for c in 0..3 {
+        for l in &leaves {
+            shapes.push(wrap(c, l.clone()));
+        }
+    }
+    for c1 in 0..3 {
+        for c2 in 0..3 {
+            if c1 == 0 && c2 == 0 {
+                continue; // no `??`
+            }
+            for l in &leaves[..3] {
+                shapes.push(wrap(c1, wrap(c2, l.clone())));
+            }
+        }
+    }
+    let mut out = Vec::new();
+    for (ci, chunk) in shapes.chunks(12).enumerate() {
+        let mut members = vec![
+            GMember::Type { name: "Rec".into(), comments: vec![], body: GBody::Struct(vec![GField { name: "id".into(), comments: vec![], ty: GTy::Int }, GField { name: "label".into(), comments: vec![], ty: GTy::Optional(Box::new(GTy::Str)) }]) },
+            GMember::Type { name: "Kind".into(), comments: vec![], body: GBody::Enum(vec![GVariant { name: "small".into(), comments: vec![] }, GVariant { name: "veryLarge".into(), comments: vec![] }]) },
+        ];
+        for (mi, pair) in chunk.chunks(2).enumerate() {
+            let f = |n: &str, t: &GTy| GField { name: n.to_string(), comments: vec![], ty: t.clone() };
+            // as inputs and as outputs, alone (so that nothing else decides e.g. lifetimes) and together
+            members.push(GMember::Method { name: format!("In{mi}"), comments: vec![], inputs: pair.iter().enumerate().map(|(i, t)| f(&format!("p{i}"), t)).collect(), outputs: vec![] });
+            for (i, t) in pair.iter().enumerate() {
+                members.push(GMember::Method { name: format!("Out{mi}x{i}"), comments: vec![], inputs: vec![], outputs: vec![f("value", t)] });
+            }
+            members.push(GMember::Method { name: format!("Both{mi}"), comments: vec![], inputs: vec![], outputs: pair.iter().enumerate().map(|(i, t)| f(&format!("r{i}"), t)).collect() });
+        }
+        members.push(GMember::Error { name: "Shape".into(), comments: vec![], fields: chunk.iter().take(3).enumerate().map(|(i, t)| GField { name: format!("e{i}"), comments: vec![], ty: t.clone() }).collect() });
+        out.push(GIface { name: format!("org.example.shapes{ci}"), comments: vec![], members });
+    }
+    out
+}
+
 fn main() {
     let args: Vec<String> = std::env::args().collect();
     let seed: u64 = args[1].parse().expect("seed");
@@ -274,8 +318,11 @@ fn main() {
     let mut runs = String::new();
     let mut count = 0;
     let mut failed_codegen = Vec::new();
-    for k in 0..n {
-        let tree = gen_iface15(&mut rng, k);
+    // systematic part: every type shape up to depth 2 over {string, int, bool, object, a custom struct, a custom
+    // enum} appears once as a parameter and once as an output (random generation alone misses rare shapes)
+    let shapes = shape_interfaces();
+    for k in 0..n + shapes.len() {
+        let tree = if k < n { gen_iface15(&mut rng, k) } else { shapes[k - n].clone() };
         let text = render(&tree, &mut Layout { rng: &mut Rng::new(1), wild: false });
         let parsed = match zlink::idl::Interface::try_from(text.as_str()) {
             Ok(p) => p,
